@@ -840,7 +840,11 @@ class StaticVector : public StaticVectorBase<T, SizeType> {
   template <class VectorType>
   void swap2_impl(VectorType &o) noexcept(is_swap_noexcept<T>::value) {
     swap_deep(this->begin(), this->size(), o.begin(), o.size());
-    swap_sizetype(this->msize(), o.msize());
+    // Capacities have been adjusted, so each size fits in the other size type.
+    // Go through setSize to keep the size encoding of a small SmallVector consistent.
+    typename VectorType::size_type oldSize = static_cast<typename VectorType::size_type>(this->size());
+    this->setSize(static_cast<SizeType>(o.size()));
+    o.setSize(oldSize);
   }
 
   // Adjust capacity methods take uintmax_t as parameter to check for size_type overflow
@@ -955,18 +959,44 @@ class DynamicVector : public DynamicVectorBaseTypeDispatcher<T, Alloc, SizeType,
   void swap2_impl(StaticVector<T, OSizeType, OGrowingPolicy> &o) noexcept(is_swap_noexcept<T>::value) {
     // Here 'o' cannot grow so we cannot swap any dynamic storage. Deeply swap all elements
     swap_deep(this->begin(), this->size(), o.begin(), o.size());
-    swap_sizetype(this->msize(), o.msize());
+    OSizeType oldSize = static_cast<OSizeType>(this->size());
+    this->setSize(static_cast<SizeType>(o.size()));
+    o.setSize(oldSize);
   }
 
   template <class OAlloc, class OSizeType, bool OWithInlineElems>
   void swap2_impl(DynamicVector<T, OAlloc, OSizeType, OWithInlineElems> &o) noexcept(is_swap_noexcept<T>::value) {
-    if (this->canSwapDynStorage(o)) {
+    if (this->canSwapDynStorageAndSizes(o)) {
+      // Both vectors use dynamic storage. Take the references to the size and capacity members before any update,
+      // as the small / large state of a SmallVector is deduced from their values.
+      SizeType &capa = this->mcapacity();
+      SizeType &size = this->msize();
+      OSizeType &oCapa = o.mcapacity();
+      OSizeType &oSize = o.msize();
       this->swapDynStorage(o);
-      swap_sizetype(this->mcapacity(), o.mcapacity());
+      swap_sizetype(capa, oCapa);
+      swap_sizetype(size, oSize);
     } else {
       swap_deep(this->begin(), this->size(), o.begin(), o.size());
+      // Capacities have been adjusted, so each size fits in the other size type.
+      // Go through setSize to keep the size encoding of a small SmallVector consistent.
+      OSizeType oldSize = static_cast<OSizeType>(this->size());
+      this->setSize(static_cast<SizeType>(o.size()));
+      o.setSize(oldSize);
     }
-    swap_sizetype(this->msize(), o.msize());
+  }
+
+  /// Dynamic storage can be exchanged only if, in addition, each capacity (and thus each size) fits in the other
+  /// size type. Otherwise elements are swapped one by one, after a check that each size fits in the other vector.
+  template <class OAlloc, class OSizeType, bool OWithInlineElems>
+  bool canSwapDynStorageAndSizes(DynamicVector<T, OAlloc, OSizeType, OWithInlineElems> &o) const noexcept {
+    return this->canSwapDynStorage(o) &&
+           static_cast<uintmax_t>(this->capacity()) <= static_cast<uintmax_t>(std::numeric_limits<OSizeType>::max()) &&
+           static_cast<uintmax_t>(o.capacity()) <= static_cast<uintmax_t>(std::numeric_limits<SizeType>::max());
+  }
+  template <class OSizeType, class OGrowingPolicy>
+  bool canSwapDynStorageAndSizes(StaticVector<T, OSizeType, OGrowingPolicy> &) const noexcept {
+    return false;
   }
 
   // Adjust capacity methods take uintmax_t as parameter to check for size_type overflow
@@ -1017,7 +1047,7 @@ class DynamicVector : public DynamicVectorBaseTypeDispatcher<T, Alloc, SizeType,
   /// (as the two size types may differ we should use LargestSizeType to avoid overflows)
   template <class VectorType>
   void adjustEachOtherCapacity(VectorType &o) {
-    if (!this->canSwapDynStorage(o)) {
+    if (!this->canSwapDynStorageAndSizes(o)) {
       adjustCapacity(o.size());
       o.adjustCapacity(this->size());
     }
